@@ -472,6 +472,7 @@ func (h *c14Hist) report(diffs []c14Diff, phase, step string, image any) {
 }
 
 func (h *c14Hist) check(step, phase string) {
+	h.quiesce() // step boundary: background compactions started by the op have finished
 	o := c14Observe(h.x)
 	e := c14Derive(h.m.Live)
 	h.r.Event("observations", 1)
@@ -480,22 +481,10 @@ func (h *c14Hist) check(step, phase string) {
 }
 
 // quiesce waits until no partition has a compaction running or pending, so that a directory
-// snapshot is a state between operations.
+// snapshot or an observation is a state between operations.
 func (h *c14Hist) quiesce() bool {
-	for i := 0; i < 4000; i++ {
-		busy := false
-		for p := 0; p < int(h.x.Idx.PartitionN); p++ {
-			pt := h.x.Idx.PartitionAt(p)
-			if pt.CurrentCompactionN() != 0 || pt.NeedsCompaction(false) {
-				busy = true
-			}
-		}
-		if !busy {
-			return true
-		}
-		h.x.Idx.Compact()
-		h.x.Idx.Wait()
-		time.Sleep(500 * time.Microsecond)
+	if h.x.Quiesce() {
+		return true
 	}
 	h.r.Inconclusive("index compactions did not quiesce")
 	return false
@@ -791,6 +780,7 @@ func c14CheckImage(dir string, p *c14Payload, im c14Image) (res c14ImgResult) {
 		res.OpenErr = err.Error()
 		return
 	}
+	x.Quiesce()
 	res.Recovered = c14Observe(x)
 	if err := x.Create(p.After); err != nil {
 		res.AfterErr = "create: " + err.Error()
@@ -802,6 +792,7 @@ func c14CheckImage(dir string, p *c14Payload, im c14Image) (res c14ImgResult) {
 		res.AfterErr = "second restart: " + err.Error()
 		return
 	}
+	x.Quiesce()
 	res.Second = c14Observe(x)
 	x.Close()
 	return
@@ -1207,8 +1198,8 @@ func TestC14(t *testing.T) {
 	r.Assume("a dropped series is also tombstoned in the series file (single-shard behaviour of the engine) except in histories marked series_file=kept, which model a series that other shards still hold",
 		"crash rule: the recovered series set lies between the state before and after the op in flight and every other answer lies between the answers derived from those two states; compaction changes nothing")
 	rep := newGixReporter(r, 1)
-	n := gixN(r, 30, 400)
-	crashN := r.N(3, 40)
+	n := gixN(r, 30, 300)
+	crashN := r.N(3, 30)
 	every := n / crashN
 	if every < 1 {
 		every = 1
